@@ -123,8 +123,8 @@ def _introduce_port_variables(routine: Routine[T], backend: SymbolicBackend[T]) 
         new_variable_name = f"#{port.name}"
         new_variable = backend.as_expression(new_variable_name)
         if port.size != new_variable and backend.is_single_parameter(port.size):
-            if (size := backend.serialize(port.size)) in routine.input_params:
-                # The symbol is a declared parameter of the routine: the port does not define it,
+            if (size := backend.serialize(port.size)) in routine.input_params or size in routine.local_variables:
+                # The symbol is a declared parameter or local variable of the routine: the port does not define it,
                 # what flows into the port has to agree with it.
                 additional_constraints.append(Constraint(new_variable, port.size))
             elif size not in additional_local_variables:
